@@ -734,6 +734,7 @@ class Request(interfaces.Request, BaseUnicastRequest):
             return
 
         if first_event.message.opt.observe is None:
+            self.observation.error(error.NotObservable())
             self.log.error(
                 "Pipe indicated more possible responses"
                 " while the Request handler would not know what to"
